@@ -282,7 +282,7 @@ def evaluateCubicBSpline (t : Tensor α) (strideX derivX : List Nat) (outSize : 
 /-- src: core/bspline.py:subdivide_cubic_bspline @401-430. `dims` are *spatial* dims
     (0 = x = last tensor dim), sorted by tensor dim like the code does. -/
 def subdivideCubicBSpline (t : Tensor α) (dims : List Nat) : Except String (Tensor α) :=
-  if t.shape.length < 4 then .error "err:value" else       -- @405 `data.ndim < 4`
+  if t.shape.length < 3 then .error "err:value" else       -- @405 `data.ndim < 3`
   let nd := t.shape.length
   if dims.any (fun a => nd - 2 ≤ a) then .error "err:value" else
   let tdims := (List.range nd).filter (fun td => dims.any (fun a => nd - 1 - a = td))
@@ -342,12 +342,12 @@ section
 variable {α : Type} [Add α] [Sub α] [Mul α] [Div α] [Neg α] [NatCast α] [IntCast α]
   [HasFloor α] [DecidableEq α] [LT α] [DecidableRel (α := α) (· < ·)] {d : Nat}
 
-/-- src: core/bspline.py:cubic_bspline_control_point_grid @71-83 — as coded: the control grid
-    keeps `grid.spacing()` (it is NOT multiplied by the stride), origin at image index `−s`. -/
+/-- src: core/bspline.py:cubic_bspline_control_point_grid @71-83: control size, origin at image
+    index `−s`, spacing `grid.spacing() * s` (control point spacing), same direction, `align_corners=True`. -/
 def controlPointGrid (g : Grid d α) (m s : Fin d → Nat) : Grid d α :=
   Grid.fromOrigin (fun i => ((ctrlSize (m i) (s i) : Nat) : α))
     (g.applyTransform .grid .world false (fun i => -(((s i : Nat) : α))))
-    g.spacing g.direction true
+    (fun i => g.spacing i * ((s i : Nat) : α)) g.direction true
 
 end
 
